@@ -42,10 +42,12 @@ open Gomjml.LayoutLeaves Gomjml.Leaves in
 theorem C04_once_components (d : Doc) (h : d.Complete) : cntT d.render = (d.fills.map LeafM.slots).sum := doc_count d h
 
 open Gomjml.Leaves in
-/-- what the Model says about the two places where a component drops author text by design: a social element without icon
-    (unknown network, no src) writes nothing, and of several titles / texts in one accordion element only the last is written —
-    both are visible in `SocEl.slots` / the `AccEl` structure, and both are what the code does (tied by correspondence) -/
-example : (LeafM.social false [⟨false, true, true⟩]).slots = 0 ∧ cntT (LeafM.social false [⟨false, true, true⟩]).toks = 0 := by decide
+/-- what was lost before the repairs (4c37da2, 4409645, 9f5d395, 24c6f9e, 0b2b55c) and is kept now: the text of a social
+    element without a known network, every title and text of an accordion element (not only the last of each kind), raw content
+    between the children of social / navbar / accordion / accordion element -/
+example : cntT (LeafM.social false [.el ⟨true, true⟩, .raw false]).toks = 2 ∧
+          cntT (LeafM.accordion [.el ⟨false, [.title true, .title true, .text true, .raw false]⟩, .raw false]).toks = 5 ∧
+          cntT (LeafM.navbar false [.raw false, .link true, .raw false]).toks = 3 := by decide
 
 /-! ### as authored: character data on the way out (`parser.EscapeCharData`, used by every slot that re-serialises decoded text) -/
 
